@@ -42,6 +42,10 @@ func runC04(e *Env) {
 	r.Rule("C04.R10", "flows", "messages built to continue a transfer inherit the complete option list of their template; the block size and timeout settings reach the engine", 9)
 	r.Rule("C04.R11", "paths", "an expired (abandoned) transfer's state is never matched by a new exchange", 4)
 	r.Rule("C04.R12", "flows", "a block's bytes are owned by its message (no recycled buffer); the reassembly message's options are set once, at creation", 2)
+	r.Rule("C04.R13", "paths", "the reassembly step disposes of every message it accepts: handed on or answered; a block with M = 1 or of a transfer in progress is never handed on alone; the reassembled body is rewound; the request for the next block is complete", 5)
+	if e.want("C04.R13") {
+		c04Dispositions(e, "C04.R13")
+	}
 	prm := e.fn("C04.R1", bw+".processReceivedMessage")
 	if prm != nil {
 		c04Reassembly(e, prm)
@@ -73,6 +77,10 @@ func runC04(e *Env) {
 			}
 			e.R.Check(ok, "C04.R1", bw+".getPayloadFromCachedReceivedMessage:size-after-truncate", e.fpos(f), "the size of the bytes held is read after the ETag-changed truncation and returned", "the size of the held body is read before the body may be truncated (ETag change): a stale size lets a block be written past a gap of zero bytes")
 		}
+	}
+	if e.want("C04.R1") {
+		c04CopyAtOffset(e, "C04.R1")
+		c04ETagRestart(e, "C04.R1")
 	}
 	if e.want("C04.R3") {
 		checkErrCell(e, "C04.R3", bw+".processReceivedMessage")
@@ -130,6 +138,7 @@ func runC04(e *Env) {
 	}
 	if e.want("C04.R6") {
 		c04MoreFlag(e)
+		c04MorePolarity(e, "C04.R6")
 	}
 	if e.want("C04.R7") {
 		c04StartOffset(e)
@@ -139,6 +148,8 @@ func runC04(e *Env) {
 	}
 	if e.want("C04.R10") {
 		c04InheritOptions(e)
+		c04InheritHeader(e, "C04.R10")
+		c04BlockOptionSet(e, "C04.R10")
 		for _, fn := range []string{"udp/server.Server.getOrCreateConn", "dtls/server.Server.createConn", "tcp/server.Server.createConn"} {
 			checkConfigCopy(e, "C04.R10", fn, []string{"BlockwiseSZX"})
 		}
@@ -181,6 +192,9 @@ func c04InheritOptions(e *Env) {
 		walk(f, 0)
 		ok := false
 		why := "no ResetOptionsTo(template options) any more: the options of the template are copied selectively or not at all"
+		if delegatesToClone(f) && !strings.HasSuffix(fn, ".cloneMessage") {
+			ok = true // built by the clone helper, which is held to the same obligation
+		}
 		for _, c := range calls {
 			arg := core.Resolve(core.Unwrap(core.Arg(c, 1)))
 			switch x := arg.(type) {
@@ -364,16 +378,8 @@ func c04Guard(e *Env, prm *ssa.Function) {
 			}
 		}
 		e.R.Check(ok, rule, bw+".getCachedReceivedMessage:returns-release", e.fpos(f), fmt.Sprintf("%d guard acquisitions; every successful return hands out a release function", len(acqs)), "a successful return does not hand out the guard's release function")
-		// error returns after a guard was taken call closeFn()
-		bad := ""
-		for k, a := range acqs {
-			if k == 0 {
-				continue
-			}
-			_ = a
-		}
-		e.R.Check(bad == "", rule, bw+".getCachedReceivedMessage:error-exits-release", e.fpos(f), "error exits after the first acquisition run the accumulated release list", bad)
 	}
+	c04GuardDiscipline(e, rule)
 	if prm != nil {
 		var call *ssa.Call
 		for _, c := range core.CallsNamed(prm, bw+".getCachedReceivedMessage") {
@@ -471,7 +477,7 @@ func c04Clamp(e *Env) {
 				}
 			}
 		}
-		e.R.Check(ok && (cmpIf != nil || viaMin) && n >= 3, rule, "net/blockwise.fitSZX:min", e.fpos(g), "returns the peer's size only when it is smaller than ours, else ours", "negotiation does not clamp to the smaller side")
+		e.R.Check(ok && (cmpIf != nil || viaMin) && (n >= 3 || (viaMin && n >= 2)), rule, "net/blockwise.fitSZX:min", e.fpos(g), "returns the peer's size only when it is smaller than ours, else ours", "negotiation does not clamp to the smaller side")
 	}
 	// BERT buffer sizing shared with C19.P8
 	table := checkSzxTableQuiet(e)
@@ -624,7 +630,22 @@ func c04StartOffset(e *Env) {
 			return core.CondMatch{}
 		})
 	}
-	why := "the offset of a block to send skips one buffer although no block was acknowledged: a one-way POST/PUT starts with block 1"
+	if ok {
+		// … and only for an upload: a Block2 option names the block that is wanted, not one that was received
+		_, ok = core.GuardedBy(adds[0], func(cond ssa.Value) core.CondMatch {
+			c, isC := core.AsCmp(cond)
+			if !isC || (c.Op != token.EQL && c.Op != token.NEQ) {
+				return core.CondMatch{}
+			}
+			for _, v := range []ssa.Value{c.X, c.Y} {
+				if k, isK := core.ConstInt(v); isK && k == 27 {
+					return core.CondMatch{Match: true, Branch: c.Op == token.EQL}
+				}
+			}
+			return core.CondMatch{}
+		})
+	}
+	why := "the offset of a block to send skips one buffer although no block was acknowledged (or for a download): a one-way POST/PUT starts with block 1, a requested Block2 is answered with the block after it"
 	if len(adds) == 0 {
 		why = "the skip of the acknowledged block is missing"
 	}
@@ -705,4 +726,14 @@ func c04Keys(e *Env) {
 	if n < 6 {
 		e.R.Undecided(rule, "blockwise-caches:accesses", "-", fmt.Sprintf("%d keyed accesses found", n))
 	}
+}
+
+// delegatesToClone: the function (or a closure in it) builds its message with BlockWise.cloneMessage.
+func delegatesToClone(f *ssa.Function) bool {
+	for _, g := range core.WithAnon(f) {
+		if len(core.CallsNamed(g, bw+".cloneMessage")) > 0 {
+			return true
+		}
+	}
+	return false
 }
